@@ -346,13 +346,14 @@ class Scheduler(Subject):
         awaited_event = Event(event_type=SERVICE_FINISHED, data={"service_uuid": service_api.uuid})
         self.awaited_events.append(awaited_event)
 
-        for callback in self.task_callbacks.service_started:
-            callback(service_api)
-
+        # log before the callbacks run: a callback may report the service as finished right away
         log_entry = (
             "Service " + service_api.service.name + " with UUID '" + service_api.uuid + "' started."
         )
         self.notify(NotificationType.LOG_EVENT, (log_entry, logging.INFO, False))
+
+        for callback in self.task_callbacks.service_started:
+            callback(service_api)
 
     def on_service_finished(self, service_api: ServiceAPI) -> None:
         """Executes Scheduling logic when a Service is finished."""
